@@ -203,6 +203,12 @@ class U:
         self.functions.setdefault(("spec",) + fref.key, fref.mod.sha)
         return True, sp(self, selfobj, *args, **kwargs)
 
+    def stub(self, **names):
+        """Module-level names (imported libraries) replaced by contract stubs = assumed contracts of external code."""
+        if not hasattr(self.interp, "stubs"):
+            self.interp.stubs = {}
+        self.interp.stubs.update(names)
+
     def loop(self, relpath, qual, ordinal, spec):
         """Attach a LoopInvariant to the ordinal-th loop of a function (loops are numbered in execution order)."""
         self.interp.loop_specs[((relpath, qual), ordinal)] = spec
